@@ -146,8 +146,10 @@ def e2e_part(name, profiles, pairs, tags, nontrivial, n_quick=120, n_thorough=12
                 units, info = EV.evaluate(progs, want_build=build, want_run=runit)
                 stats["batches"] += 1
                 stats["programs"] += len(progs)
+                stats["invalid_generated"] = stats.get("invalid_generated", 0) + len(info.get("invalid_programs_dropped", []))
                 done += len(progs)
-                if extra:
+                broken_batch = any("generate failed" == x.strip() for x in info["unattributed"])
+                if extra and not broken_batch:
                     d2, f2 = extra(rep, units, info)
                     dis += d2
                     fails += f2
